@@ -23,10 +23,11 @@ def main(argv=None):
         assumptions=['resolving a persistent reference through the pickle cache yields the object that was pickled '
                      '(idealised in the model, exercised by the run; C14 is about reference round trips)',
                      'the second connection only commits payload changes of committed objects',
-                     'known findings C11:new-object-keeps-oid-after-failed-store and '
-                     'C11:stored-new-object-ghostified-on-abort: the theorems are proved for runs that do not go '
-                     'through these two situations (flags d1/d2 of the model); a case is compared up to the first '
-                     'finding'])
+                     'finding C11:new-object-keeps-oid-after-failed-store is fixed (the model is of the repaired '
+                     '_store_objects, the reproducer is the first corpus case); open finding '
+                     'C11:stored-new-object-ghostified-on-abort: the clause "the un-added object keeps its state" is '
+                     'proved for runs that do not go through that situation (flag d2 of the model) with a negation '
+                     'witness; a case is compared with the model up to the first finding'])
 
 
 if __name__ == '__main__':
